@@ -324,3 +324,33 @@ Proof.
   - intros Hp. exists 1, [98]. split; [cbn; tauto|]. split; [reflexivity|].
     apply chain_closure. lia.
 Qed.
+
+(* ---------------------------------------------------------------- a regex oracle that errs (C20)
+   [rx_sane] is the only hypothesis of C20_spans_within.  An instance that never reports an error
+   satisfies it vacuously; this one rejects every pattern containing an opening parenthesis and
+   reports the byte span of the first one (as regex_syntax does for an unclosed group). *)
+Fixpoint first_open (p : str) (off : N) : option N :=
+  match p with
+  | [] => None
+  | c :: r => if c =? 40 then Some off else first_open r (off + utf8_len c)
+  end.
+
+Definition paren_engine : syntax_oracle :=
+  mksyn (fun _ => true)
+        (fun p => match first_open p 0 with Some off => RxErr off 1 | None => RxOk end).
+
+Lemma first_open_within p : forall off0 off,
+  first_open p off0 = Some off -> off + 1 <= off0 + blen p.
+Proof.
+  induction p as [|c r IH]; intros off0 off; cbn [first_open blen]; [discriminate|].
+  destruct (c =? 40) eqn:E.
+  - intros H; injection H as <-. apply N.eqb_eq in E. subst c. change (utf8_len 40) with 1. lia.
+  - intros H. apply IH in H. unfold utf8_len in *. destruct (c <? 128), (c <? 2048), (c <? 65536); lia.
+Qed.
+
+Lemma paren_engine_sane : rx_sane paren_engine.
+Proof.
+  intros p off len. cbn [paren_engine regex_check].
+  destruct (first_open p 0) as [o|] eqn:E; [|discriminate].
+  intros H; injection H as <- <-. apply first_open_within in E. lia.
+Qed.
